@@ -139,6 +139,36 @@ def x_dtype(sdt, odt):
     return np.result_type(*([NPDT[d] for d in sdt] + [NPDT[d] for d in odt]))
 
 
+CFG_KEYS = ('fit_intercept', 'copy_X', 'positive', 'n_jobs')
+CFG_DEFAULT = dict(fit_intercept=True, copy_X=True, positive=False, n_jobs=None)
+
+
+def cfg_full(cfg):
+    """the keyword arguments of a run (only the keys that are passed explicitly) completed with scikit-learn's defaults"""
+    d = dict(CFG_DEFAULT)
+    d.update(cfg or {})
+    return d
+
+
+def default_problem(cfg):
+    """fit_intercept=True, positive=False: the least-squares problem on [1 X] (copy_X / n_jobs are not part of the problem)"""
+    c = cfg_full(cfg)
+    return bool(c['fit_intercept']) and not c['positive']
+
+
+def ccfg(cfg):
+    c = cfg_full(cfg)
+    nj = c['n_jobs']
+    return ('{| cf_fit_intercept := %s; cf_copy_X := %s; cf_positive := %s; cf_n_jobs := %s |}'
+            % (cbool(bool(c['fit_intercept'])), cbool(bool(c['copy_X'])), cbool(bool(c['positive'])),
+               'None' if nj is None else '(Some (%d)%%Z)' % int(nj)))
+
+
+def cfmat(X):
+    """a matrix of floats ('nan'/'inf' strings allowed) as list (list fval)"""
+    return clist([clist([cfv(x) for x in row]) for row in X])
+
+
 class C17(PropCheck):
     pid = 'C17'
     header = ('From Coq Require Import List ZArith QArith Bool.\nFrom Elfi Require Import Base.Harness Num.Adjust.\n'
@@ -322,18 +352,83 @@ class C17(PropCheck):
             if abs(np.linalg.det(np.array(M))) >= 0.5:
                 A = M
         c = [r.randint(-8, 8) / 2.0 for _ in range(k)]
-        return dict(kind='adj', summ=summ, obs=obs, params=params, use_names=r.random() < 0.7, A=A, c=c, runs=runs)
+        case = dict(kind='adj', summ=summ, obs=obs, params=params, use_names=r.random() < 0.7, A=A, c=c, runs=runs)
+        self._attach_cfgs(case, prob=0.3)
+        return case
 
-    def gen_adjust(self, malformed=False, cross=False):
+    def _gen_cfg(self, first=False):
+        """keyword arguments for the adjustment object: any subset of scikit-learn's LinearRegression parameters, each
+        either at its default (passed explicitly) or not; `first`: copy_X=False for sure (the one switch that allows the
+        regression model to overwrite the matrix it is given)"""
+        r = self.rng
+        cfg = {}
+        if first or r.random() < 0.5:
+            cfg['copy_X'] = False if first else r.choice([False, False, True])
+        if r.random() < 0.35:
+            cfg['fit_intercept'] = r.choice([False, False, True])
+        if r.random() < 0.3:
+            cfg['positive'] = r.choice([True, True, False])
+        if r.random() < 0.3:
+            cfg['n_jobs'] = r.choice([None, 1, 2, -1])
+        if not cfg:
+            cfg[r.choice(['copy_X', 'fit_intercept'])] = False
+        return cfg
+
+    def _attach_cfgs(self, case, prob=1.0, first=False):
+        """give the further runs of a case a configuration.  positive=True (non-negative least squares) only when the design
+        [1 X] of every fitted parameter has full column rank (as for the affine clause: otherwise the slope is not unique and
+        the oracle and scipy's NNLS may legitimately pick different ones)."""
+        r = self.rng
+        orc = self._oracle(case['summ'], case['obs'], case['params'])
+        full = all(o['full'] for o in orc if o['nf'] > 0)
+        n = len(case['summ'])
+        allfin = all(o['nf'] == n for o in orc)
+        for t, run in enumerate(case.get('runs', [])):
+            if r.random() >= prob:
+                self.bump('adj:cfg=none(default object)')
+                continue
+            cfg = self._gen_cfg(first=(first and t == 0))
+            if cfg.get('positive') and not full:
+                del cfg['positive']
+                if not cfg:
+                    cfg['copy_X'] = False
+            run['cfg'] = cfg
+            c = cfg_full(cfg)
+            self.bump('adj:cfg_keys_passed=%d' % len(cfg))
+            for key in CFG_KEYS:
+                self.bump('adj:cfg_%s=%s%s' % (key, c[key], '' if key in cfg else '(default, not passed)'))
+            self.bump('adj:cfg_problem=%s' % ('default' if default_problem(cfg) else
+                                              ('no_intercept' if not c['fit_intercept'] else 'intercept') + ('+positive' if c['positive'] else '')))
+            xdt = str(x_dtype(run['sdt'], run['odt']))
+            self.bump('adj:cfg_copy_X=%s&%s&X_%s' % (c['copy_X'], 'all_rows_finite' if allfin else 'some_rows_nonfinite', xdt))
+
+    def gen_adjust_cfg(self):
+        """the configuration stream: a float64 sample, half of them without any non-finite entry, and 2-3 further runs
+        each built with keyword arguments (run 0 always copy_X=False), listed / laid out at random"""
+        r = self.rng
+        case = self.gen_adjust(cfgstream=True)
+        k, p = len(case['obs']), len(case['params'])
+        case['runs'] = self._make_runs(['real'] * k, ['real'] * p, case['obs'], r.choice([2, 2, 3]), native_first=False)
+        if r.random() < 0.5:          # everything float64 (also the observed summaries), canonical listing for run 0
+            for run in case['runs']:
+                run['odt'] = ['f8'] * k
+            case['runs'][0]['perm'] = list(range(k))
+        self._attach_cfgs(case, first=True)
+        self.bump('adj:cfg_stream')
+        return case
+
+    def gen_adjust(self, malformed=False, cross=False, cfgstream=False):
         r = self.rng
         k = r.randint(1, 3)
         p = r.randint(2, 3) if cross else r.randint(1, 3)
-        n = r.randint(k + 4, 14) if cross else r.randint(2, 14)
+        n = r.randint(k + 4, 14) if cross else r.randint(k + 2, 14) if cfgstream else r.randint(2, 14)
         mode = r.choice(['grid', 'grid', 'float'])
         obs = [self._val('grid') for _ in range(k)]
         summ = [[self._val(mode) for _ in range(k)] for _ in range(n)]
         params = [[self._val(mode) for _ in range(n)] for _ in range(p)]
         pn = r.choice([0.0, 0.05, 0.12, 0.25])
+        if cfgstream:
+            pn = r.choice([0.0, 0.0, 0.0, 0.05, 0.12, 0.25])
         nf = 0
         for i in range(n):
             for j in range(k):
@@ -401,9 +496,12 @@ class C17(PropCheck):
                 A = M
         c = [r.randint(-8, 8) / 2.0 for _ in range(k)]
         case = dict(kind='adj', summ=summ, obs=obs, params=params, use_names=r.random() < 0.7, A=A, c=c)
+        if cfgstream:
+            return case
         if r.random() < 0.3:
             # the same sample listed in another order / held in non-contiguous or read-only float64 arrays
             case['runs'] = self._make_runs(['real'] * k, ['real'] * p, obs, 1, native_first=False)
+            self._attach_cfgs(case, prob=0.5)
         return case
 
     def _cmp_store(self, samples, pri):
@@ -517,12 +615,15 @@ class C17(PropCheck):
         na, nc, nma, nmc = (150, 220, 12, 16) if self.tier == 'quick' else (2200, 3000, 120, 160)
         nx, nnf = (60, 90) if self.tier == 'quick' else (800, 1200)
         nst, nz = (100, 100) if self.tier == 'quick' else (700, 1000)
+        ncf = 70 if self.tier == 'quick' else 800
         for _ in range(na):
             yield self.gen_adjust()
         for _ in range(nx):
             yield self.gen_adjust(cross=True)
         for _ in range(nst):
             yield self.gen_adjust_store()
+        for _ in range(ncf):
+            yield self.gen_adjust_cfg()
         for _ in range(nma):
             yield self.gen_adjust(malformed=True)
         for _ in range(nc):
@@ -572,7 +673,13 @@ class C17(PropCheck):
         before = {name: (a.dtype.str, a.shape, a.tobytes()) for name, a in outputs.items()}
         obs_before = {nm: (m[nm].observed.dtype.str, m[nm].observed.tobytes()) for nm in snames}
         sample = Sample(method_name='Rejection', outputs=outputs, parameter_names=pnames)
-        adj = LinearAdjustment() if spec == 'instance' else 'linear'
+        # keyword arguments of the adjustment object (documented as handed to the regression model): only the keys
+        # the run names are passed, the others keep scikit-learn's defaults
+        kw = {key: run['cfg'][key] for key in CFG_KEYS if key in (run.get('cfg') or {})}
+        adj = LinearAdjustment(**kw) if spec == 'instance' else 'linear'
+        # the regressors the object must hold: summaries - observed of the arrays handed in, computed here BEFORE the fit
+        with np.errstate(all='ignore'):
+            X0 = np.stack([outputs[snames[j]] for j in perm], axis=1) - np.stack([m[snames[j]].observed for j in perm], axis=1)
         d = {}
         try:
             res = adjust_posterior(sample, m, [snames[j] for j in perm], pnames if use_names else None, adj)
@@ -593,7 +700,79 @@ class C17(PropCheck):
         if spec == 'instance':
             d['coef'] = [[float(x) for x in np.atleast_1d(rm.coef_).ravel()] for rm in adj.regression_models]
             d['icpt'] = [float(np.asarray(rm.intercept_).ravel()[0]) for rm in adj.regression_models]
+            # the object's own stored regressors (public attribute X) after fit + adjust ...
+            Xa = np.asarray(adj.X)
+            d['X'] = [[enc(v) for v in row] for row in Xa] if Xa.ndim == 2 else None
+            d['x_changed'] = self._x_diff(X0, Xa)
+            # ... a second adjust() on the same fitted object returns the same arrays and leaves X alone
+            try:
+                res2 = adj.adjust()
+                diff = [name for name in pnames
+                        if np.shape(res2.outputs[name]) != np.shape(res.outputs[name])
+                        or not np.array_equal(np.asarray(res2.outputs[name], dtype=float), np.asarray(res.outputs[name], dtype=float), equal_nan=True)]
+                if diff:
+                    d['readjust'] = 'second adjust() differs for %s' % diff
+            except Exception as e:
+                d['readjust'] = 'second adjust() raised %s: %s' % (type(e).__name__, str(e)[:120])
+            d['x_changed'] = d['x_changed'] or self._x_diff(X0, np.asarray(adj.X))
+            # and still nothing handed in was written to
+            late = [name for name, a in outputs.items() if (a.dtype.str, a.shape, a.tobytes()) != before[name]]
+            if late:
+                d['mutated'] = sorted(set(d.get('mutated', []) + late))
         return d
+
+    @staticmethod
+    def _x_diff(X0, Xa):
+        """None when the object's X attribute is (value for value, nan = nan) the matrix summaries - observed computed
+        before the fit, in the same dtype and shape; otherwise a description"""
+        if Xa.shape != X0.shape or Xa.dtype != X0.dtype:
+            return 'X attribute is %s %s, summaries - observed is %s %s' % (Xa.dtype, Xa.shape, X0.dtype, X0.shape)
+        if not np.array_equal(Xa, X0, equal_nan=True):
+            with np.errstate(all='ignore'):
+                dv = np.abs(np.asarray(Xa, dtype=float) - np.asarray(X0, dtype=float))
+            dv = dv[np.isfinite(dv)]
+            return 'X attribute differs from summaries - observed (max abs difference %r)' % (float(dv.max()) if len(dv) else None)
+        return None
+
+    def _oracle_cfg(self, summ, obs, params, cfg):
+        """oracle slope per parameter (canonical listing) for the regression problem of a configuration:
+        fit_intercept=False -> least squares on the un-centred regressors (min-norm lstsq); positive=True -> the
+        non-negative least-squares slope, found by enumerating the supports (k <= 3): the optimum is the least-squares
+        solution on its support, so it is the feasible support solution with the smallest residual."""
+        import itertools
+        c = cfg_full(cfg)
+        S = np.array([[dec(x) for x in row] for row in summ], dtype=float)
+        o = np.array([dec(x) for x in obs], dtype=float)
+        with np.errstate(all='ignore'):
+            X = S - o
+        k = X.shape[1]
+        res = []
+        for col in params:
+            y = np.array([dec(x) for x in col], dtype=float)
+            mask = np.isfinite(X).all(axis=1) & np.isfinite(y)
+            A, t = X[mask], y[mask]
+            if len(t) == 0:
+                res.append([0.0] * k)
+                continue
+            if c['fit_intercept']:
+                A, t = A - A.mean(axis=0), t - t.mean()
+            if not c['positive']:
+                b = np.linalg.lstsq(A, t, rcond=None)[0]
+            else:
+                best, b = None, np.zeros(k)
+                for size in range(k + 1):
+                    for P in itertools.combinations(range(k), size):
+                        cand = np.zeros(k)
+                        if P:
+                            cand[list(P)] = np.linalg.lstsq(A[:, list(P)], t, rcond=None)[0]
+                        if (cand < -1e-13).any():
+                            continue
+                        cand = np.maximum(cand, 0.0)
+                        rss = float(np.sum((t - A.dot(cand)) ** 2))
+                        if best is None or rss < best:
+                            best, b = rss, cand
+            res.append([float(x) for x in b])
+        return res
 
     def _oracle(self, summ, obs, params):
         """independent recomputation: finite rows, centred lstsq slope, rank of [1 X]."""
@@ -697,7 +876,9 @@ class C17(PropCheck):
             d['runs'] = []
             for run in case.get('runs', []):
                 dr = self._run_adjust(case['summ'], case['obs'], case['params'], case['use_names'], run=run)
-                if 'out' in dr and 'out' in d and len(dr['out']) == len(d['out']) and \
+                dr['oracle_b'] = [o['b'] for o in d['oracle']] if default_problem(run.get('cfg')) else \
+                    self._oracle_cfg(case['summ'], case['obs'], case['params'], run.get('cfg'))
+                if default_problem(run.get('cfg')) and 'out' in dr and 'out' in d and len(dr['out']) == len(d['out']) and \
                         all(len(a) == len(b) for a, b in zip(dr['out'], d['out'])):
                     with np.errstate(all='ignore'):
                         dr['max_abs_diff_to_reference_run'] = max(
@@ -775,6 +956,11 @@ class C17(PropCheck):
                                                        for t, dr in enumerate(out.get('runs', []))]:
                 if dr.get('mutated'):
                     fails.append(('inputs_unmutated', '%s: adjust_posterior wrote to the arrays it was given: %s' % (tag, dr['mutated'])))
+                if dr.get('x_changed'):
+                    fails.append(('regressors_unmutated', "%s: the adjustment object's stored regressors are not the differences to the "
+                                  'observed summaries after fit/adjust: %s' % (tag, dr['x_changed'])))
+                if dr.get('readjust'):
+                    fails.append(('adjust_repeatable', '%s: %s' % (tag, dr['readjust'])))
                 for q, shp in enumerate(dr.get('out_shape', [])):
                     if len(shp) != 1:
                         fails.append(('adjusted_rows', '%s: adjusted parameter %d has shape %s, a 1-d array of the usable rows expected'
@@ -907,15 +1093,21 @@ class C17(PropCheck):
                         return '(Some [])', clist(['[]' for _ in o['coef']]), clist(['0' for _ in o['icpt']])
                     return '(Some %s)' % clist([cql(l) for l in o['out']]), clist([cql(l) for l in o['coef']]), cql(o['icpt'])
                 return 'None', '[]', '[]'
+            def x_term(o):
+                return '(Some %s)' % cfmat(o['X']) if isinstance(o.get('X'), list) else 'None'
             impl, coef, icpt = impl_terms(out)
             runs = []
             for run, dr in zip(case.get('runs', []), out.get('runs', [])):
                 ri, rc, r0 = impl_terms(dr)
-                runs.append('{| r_perm := %s; r_sdt := %s; r_odt := %s; r_pdt := %s; r_coef := %s; r_icpt := %s; r_out := %s |}'
+                runs.append('{| r_perm := %s; r_sdt := %s; r_odt := %s; r_pdt := %s; r_coef := %s; r_icpt := %s; r_out := %s; '
+                            'r_cfg := %s; r_oracle := %s; r_X := %s |}'
                             % (clist([cnat(j) for j in run['perm']]), clist([COQDT[x] for x in run['sdt']]),
-                               clist([COQDT[x] for x in run['odt']]), clist([COQDT[x] for x in run['pdt']]), rc, r0, ri))
+                               clist([COQDT[x] for x in run['odt']]), clist([COQDT[x] for x in run['pdt']]), rc, r0, ri,
+                               ccfg(run.get('cfg')),
+                               '[]' if default_problem(run.get('cfg')) else clist([cql(b) for b in dr['oracle_b']]), x_term(dr)))
             return ('CAdj {| a_summ := %s; a_obs := %s; a_params := %s; a_oracle := %s; a_impl_coef := %s; '
-                    'a_impl_icpt := %s; a_impl_out := %s; a_runs := %s |}' % (rows, obs, pars, orc, coef, icpt, impl, clist(runs)))
+                    'a_impl_icpt := %s; a_impl_out := %s; a_impl_X := %s; a_runs := %s |}'
+                    % (rows, obs, pars, orc, coef, icpt, impl, x_term(out), clist(runs)))
         samples = clist(['(%s, %s)' % (cql(d), cq(ns)) for d, ns in surrogate(case['samples'])])
         pri = 'None' if case['priors'] is None else '(Some %s)' % cql(case['priors'])
         order = clist([cnat(j) for j in out['order']])
